@@ -4,7 +4,7 @@
                                                            messages in order, where each stamp came from, for/until agree
      pubstack  depth n inner err calls order applied closes   a stack of transform / metrics publisher decorators
      substack  depth n received order applied settles closes  a stack of subscriber decorators around a scripted subscriber
-     metrics   applied observed expected                   Prometheus counters vs. the harness' own event counts          *)
+     metrics   applied observed expected labels                   Prometheus counters vs. the harness' own event counts          *)
 EXTENDS PubSubDecorators, TraceBase
 tvars == <<l>>
 TInit == LInit
@@ -16,7 +16,11 @@ TDelay == /\ Is("delaypub")
 TPubStack == Is("pubstack") /\ Ev.calls = 1 /\ Ev.order /\ Ev.applied /\ Ev.err = (Ev.inner = "error") /\ Ev.closes = 1 /\ Adv
 TSubStack == Is("substack") /\ Ev.received = Ev.n /\ Ev.order /\ Ev.applied /\ Ev.settles /\ Ev.closes = 1 /\ Adv
 \* CountersEqualEvents: every publish call, settled received message and handler invocation is counted exactly once with the right label
-TMetrics == Is("metrics") /\ Ev.observed = Ev.expected /\ Adv
+\* ... and under the names of the handler (H), its publisher ("pub") and its subscriber ("sub") it happened in
+TMetrics == /\ Is("metrics") /\ Ev.observed = Ev.expected
+            /\ Ev.labels = (IF DOMAIN Ev.expected.publish # {} THEN <<"handler{H,,}", "publish{H,pub,}", "sub{H,,sub}">>
+                                                               ELSE <<"handler{H,,}", "sub{H,,sub}">>)
+            /\ Adv
 TNext == (Is("reset") /\ Adv) \/ TDelay \/ TPubStack \/ TSubStack \/ TMetrics
 TSpec == TInit /\ [][TNext]_tvars
 =============================================================================
